@@ -116,6 +116,19 @@ func opWUXCounter(key, name string) SOp {
 	}}
 }
 
+// opWUXShown writes body+xattr through WriteUpdateWithXattrs and reports what its (last) callback invocation was shown.
+func opWUXShown(key string) SOp {
+	return SOp{Name: "WriteUpdateWithXattrs " + key + " (reports what it was shown)", Do: func(w *SWorld, st *TState) (string, []uint64) {
+		var shownCas uint64
+		var shownBody []byte
+		cas, err := w.C(st.T).WriteUpdateWithXattrs(ctx, key, []string{"_s"}, 0, nil, &sgbucket.MutateInOptions{}, func(doc []byte, xattrs map[string][]byte, cas uint64) (sgbucket.UpdatedDoc, error) {
+			shownCas, shownBody = cas, append([]byte(nil), doc...)
+			return sgbucket.UpdatedDoc{Doc: []byte(`{"w":1}`), Xattrs: map[string][]byte{"_s": []byte(`{"n":1}`)}}, nil
+		})
+		return fmt.Sprintf("%s «0» shown=%q/«1»", ec(err), shownBody), []uint64{cas, shownCas}
+	}}
+}
+
 func opGetWithXattrs(key string) SOp {
 	return SOp{Name: "GetWithXattrs " + key, Do: func(w *SWorld, st *TState) (string, []uint64) {
 		v, xs, cas, err := w.C(st.T).GetWithXattrs(ctx, key, RealXNames)
@@ -207,6 +220,9 @@ func init() {
 	// Update whose callback only changes the expiry, against a blind writer; the operation reports what its callback was shown
 	variants(Scenario{Name: "S10-update-exponly-set", Prop: lin, Lin: true, Setup: setupSet("k", "s0"),
 		Threads: [][]SOp{{opUpdateExpOnly("k")}, {opSet("k", "s1")}, {opGetExpiry("k")}}}, 1, 2)
+	// WriteUpdateWithXattrs on a key that does not exist yet, against a creator and a deleter; the result records the CAS the callback was shown
+	variants(Scenario{Name: "S11-wux-absent-add-delete", Prop: lin, Lin: true,
+		Threads: [][]SOp{{opWUXShown("k")}, {opAdd("k", `{"a":1}`), opDelete("k")}}}, 1, 2)
 	// deeper drivers for the thorough tier: three operations per thread
 	variants(Scenario{Name: "S9-incr-get-deep", Prop: lin, Lin: true, ThoroughOnly: true,
 		Threads: [][]SOp{{opIncr("k"), opIncr("k"), opGet("k")}, {opIncr("k"), opGet("k"), opIncr("k")}, {opGet("k"), opGet("k")}}}, 1, 2)
